@@ -52,10 +52,10 @@ FIELD_REQUIRED = {
             "mul:hi_lo_ffffffff", "mul:hi_hi_ffffffff", "inc:plus1", "inc:wrap_to_zero", "inc:via_add", "dec:minus1", "dec:wrap",
             "in:noncanonical_operand", "out:noncanonical_result", "alias:pairs_checked", "oracle:gmp_crosschecks", "family:concurrent_callers"],
     "C10": ["family:inv_directed", "family:inv_random", "inv:noncanonical_operand", "exp:exponent_zero", "exp:exponent_one",
-            "exp:general", "exp:noncanonical_base", "exp:zero_base", "refusal:cases", "refusal:cases_after_successful_inversions"],
+            "exp:general", "exp:noncanonical_base", "exp:zero_base", "refusal:cases", "refusal:cases_after_successful_inversions", "family:concurrent_callers"],
     "C15": ["fromS32:int32_min", "fromS32:negative", "fromS64:negative", "fromS64:beyond_centred_range", "fromString:below_minus_p",
             "fromString:negative", "fromString:above_p", "fromString:non_decimal_radix", "toS32:int32_min", "toS32:int32_max",
-            "toS32:out_of_range", "equal:alias_pairs", "out:noncanonical_representation", "toString:radix_checked"],
+            "toS32:out_of_range", "equal:alias_pairs", "out:noncanonical_representation", "toString:radix_checked", "family:concurrent_callers"],
 }
 
 
@@ -86,12 +86,12 @@ def check_field(prop, tier, seed, work, t0):
 
 
 # ------------------------------------------------------------------------------------------ C02 / C11 / C13 / C14
-LANE_REQUIRED = ["family:fixed_x_fixed", "family:small_grid", "family:solve_sum", "family:product_target", "family:mixed_random",
+LANE_REQUIRED = ["family:fixed_x_fixed", "family:small_grid", "family:solve_sum", "family:product_target", "family:mixed_random", "family:concurrent_callers",
                  "lane:a_noncanonical_canonicalised", "lane:add_overflow_corrected", "lane:add_no_overflow", "lane:small_equal_high_halves",
                  "lane:small_low_half_carry", "lane:sub_underflow_corrected", "lane:sub_no_underflow", "lane:true_sum_or_diff_noncanonical_band",
                  "lane:b_equals_0xFFFFFFFF00000000", "lane:mul_hi_lo_ffffffff", "lane:mul_hi_hi_ffffffff", "lane:mul_hi_zero",
                  "lane:load_store_set_shift_checked", "lane:in_place_call_forms"]
-MAT_REQUIRED = ["forms:result_register_is_state_register", "band:probed_lane_products_noncanonical", "band:probed_two_or_more_noncanonical_addends_in_one_lane",
+MAT_REQUIRED = ["forms:result_register_is_state_register", "family:concurrent_callers", "band:probed_lane_products_noncanonical", "band:probed_two_or_more_noncanonical_addends_in_one_lane",
                 "band:state_positions_with_product_in_[p,2^64)"] + \
     ["matfam:%s:%s" % (f, w) for f in ("uniform", "boundary", "band_directed", "three_times_5555", "quotient_like", "low_word_8bit_high_word_set") for w in ("8bit", "full")]
 LANE_RULE = ("every lane of every call carries a different operand pair (lane position rotated per call); pairs from the fixed boundary set "
@@ -292,7 +292,7 @@ C09_RULE = ("coefficient triples: all 12^6 pairs over the 12-value boundary set 
 C09_REQUIRED = ["family:boundary_triples_12^6", "family:boundary_triples_exhaustive_shards", "family:random_triples", "family:inv_structured", "forms:aliasing_checked",
                 "forms:mulScalar_string", "in:noncanonical_coefficient", "in:element_with_zero_coefficients", "in:base_field_element(b=c=0)", "inv:no_zero_coefficient",
                 "inv:one_zero_coefficient", "inv:two_zero_coefficients", "isOne:representations_of_one", "isOne:one_coefficient_off", "isOne:true_cases",
-                "batchInverse:every_length_1..130", "batchInverse:long", "batchInverse:beyond_8MiB_of_temporaries"]
+                "batchInverse:every_length_1..130", "batchInverse:long", "batchInverse:beyond_8MiB_of_temporaries", "family:concurrent_callers"]
 
 
 @reg("C09")
